@@ -102,6 +102,201 @@ def presentation_fails(rec, sc, F0, chk=None, bad=None):
     return h, fails, worst
 
 
+# --------------------------------------------------------------------------------------------------------------------
+# bulk updates (pydrex.update_all) over assemblages ON THE BOUNDARY OF THE SIMPLEX of phase fractions, and mineral lists
+# that are any sub-list of the assemblage.  The property quantifies over "all minerals and parameter sets, all phase
+# assemblages" and says that a bulk update returns the F of a single-phase update: a phase fraction of exactly 0 / exactly
+# 1 (a phase that vanishes on a stretch of the pathline), a list that tracks only the vanished phase, only one of two
+# phases, the same phase twice, the phases in the other order than the assemblage, or a phase the assemblage does not name
+# are all legal calls, and anything that decides per mineral whether / how to integrate is only visible there (seeded
+# change C06f: minerals of zero-fraction phases skipped; F taken "from the minerals that were updated").
+# --------------------------------------------------------------------------------------------------------------------
+BULK_FLOWS = ("general", "simple", "time", "position", "trace", "spin", "pure")     # constant / time- / position-dependent
+BULK_ASSEMBLAGES = (        # (label, phase ordinals, fractions); 0 = olivine, 1 = enstatite (the enum has no third phase)
+    ("ol=1|en=0", (0, 1), (1.0, 0.0)), ("ol=0|en=1", (0, 1), (0.0, 1.0)),
+    ("en=1|ol=0", (1, 0), (1.0, 0.0)), ("en=0|ol=1", (1, 0), (0.0, 1.0)),
+    ("ol=1", (0,), (1.0,)), ("en=1", (1,), (1.0,)),
+    # next to the boundary (smallest subnormal, 1e-300, one ulp below 1) and interior controls
+    ("ol=1|en=5e-324", (0, 1), (1.0, 5e-324)), ("en=1e-300|ol=1", (1, 0), (1e-300, 1.0)),
+    ("ol=1ulp|en=1-1ulp", (0, 1), (2.0 ** -53, 1.0 - 2.0 ** -53)),
+    ("ol=0.7|en=0.3", (0, 1), (0.7, 0.3)), ("en=0.5|ol=0.5", (1, 0), (0.5, 0.5)),
+)
+BULK_LISTS = ((0,), (1,), (0, 1), (1, 0), (0, 0), (1, 1), (1, 0, 1), ())           # phases of the minerals handed over, in order
+BULK_FRACTION_SPELLINGS = ("tuple", "list", "np.float64", "ndarray")               # same values, as configs / files / arrays give them
+_FABRICS_OF = {0: (0, 1, 2, 3, 4), 1: (5,)}
+
+
+def bulk_class(assemblage, fractions, listed):
+    """where a call sits: what the listed minerals' phases weigh in the assemblage"""
+    w = [fractions[assemblage.index(p)] if p in assemblage else None for p in listed]
+    if not w:
+        return "empty-list"
+    if any(x is None for x in w):
+        return "phase-absent:all" if all(x is None for x in w) else "phase-absent:some"
+    if all(x == 0 for x in w):
+        return "fraction-0:all-listed"
+    if all(x == 1 for x in w):
+        return "fraction-1:all-listed"
+    if any(x == 0 for x in w):
+        return "fraction-0:" + ("last" if w[-1] == 0 else "not-last")
+    return "near-boundary" if min(min(x, 1 - x) for x in w) < 1e-12 else "interior"
+
+
+def bulk_plan(rng, tier):
+    """every assemblage of BULK_ASSEMBLAGES x every list of BULK_LISTS once (thorough: 4 times); flow family, regimes, fabrics, grain
+    counts, textures of the members, number of consecutive bulk updates (1..2, thorough 1..3) and the spelling of the fractions vary"""
+    out, j = [], 0
+    for _ in range(1 if tier == "quick" else 4):
+        for label, ass, fr in BULK_ASSEMBLAGES:
+            for listed in BULK_LISTS:
+                sc = MT.scenario(rng, regime=int((4, 6, 0, 7)[j % 4]), pair=(0, 0), n=int(rng.integers(2, 10)),
+                                 lkind=BULK_FLOWS[j % len(BULK_FLOWS)], nupd=1 + int(rng.integers(2 if tier == "quick" else 3)),
+                                 strain=float(rng.uniform(0.1, 0.5)))
+                sc["flow_seed"] = int(rng.integers(0, 2**31 - 1))
+                members = [[int(p), int(_FABRICS_OF[p][int(rng.integers(len(_FABRICS_OF[p])))]), int(rng.integers(2, 10)),
+                            int((4, 6, 0, 7, 4)[int(rng.integers(5))]), MT.T_KINDS[int(rng.integers(4))]] for p in listed]
+                sc["bulk"] = dict(label=label, assemblage=[int(p) for p in ass], fractions=[float(x) for x in fr], members=members,
+                                  spelling=BULK_FRACTION_SPELLINGS[int(rng.integers(len(BULK_FRACTION_SPELLINGS)))],
+                                  cls=bulk_class(list(ass), list(fr), list(listed)))
+                out.append(sc)
+                j += 1
+    return out
+
+
+def bulk_build(sc, single_phase_of=None):
+    """minerals (fresh, one per member, own texture), params, flow and pathline of a bulk scenario.  single_phase_of = j: only
+    member j, in a ONE-phase configuration (assemblage = its phase, fraction 1) -- the single-phase update of the property text"""
+    import pydrex
+    b = sc["bulk"]
+    ass = [pydrex.MineralPhase(int(p)) for p in b["assemblage"]]
+    fr = [float(x) for x in b["fractions"]]
+    members = list(enumerate(b["members"]))
+    if single_phase_of is not None:
+        members = [members[single_phase_of]]
+        ass, fr = [pydrex.MineralPhase(int(members[0][1][0]))], [1.0]
+    sp = b.get("spelling", "tuple")
+    ms, built = [], None
+    for j, (ph, fab, n, reg, tk) in members or [(0, (0, 0, sc["n"], sc["regime"], sc["tkind"]))]:
+        scj = dict(sc, pair=(int(ph), int(fab)), n=int(n), regime=int(reg), tkind=tk, seed=int(sc["seed"]) + 7 * j)
+        built = MT.build(scj, ass, fr)
+        ms.append(built[0])
+    if not members:
+        ms = []
+    _, params, get_L, get_x, _ = built
+    if sp == "list":
+        params["phase_assemblage"], params["phase_fractions"] = list(ass), list(fr)
+    elif sp == "np.float64":
+        params["phase_fractions"] = tuple(np.float64(x) for x in fr)
+    elif sp == "ndarray":
+        params["phase_fractions"] = np.array(fr, dtype=float)
+    return ms, params, get_L, get_x
+
+
+def bulk_interval(sc, get_L, get_x):
+    L0 = np.asarray(get_L(0.0, get_x(0.0)), dtype=float)
+    s0 = float(np.abs(np.linalg.eigvalsh((L0 + L0.T) / 2)).max())
+    return (sc["strain"] / sc["nupd"]) / s0 if s0 > 0 else (0.5 / (float(np.abs(L0).max()) or 1.0)) / sc["nupd"]
+
+
+def _rel(A, B):
+    return float(np.abs(np.asarray(A, dtype=float) - B).max() / max(1e-300, np.abs(B).max()))
+
+
+def bulk_fails(sc, F0, info=None):
+    """C06's oracle on one bulk scenario: sc["nupd"] consecutive pydrex.update_all calls on the same minerals.
+      * every returned F vs an independent DOP853 integration of dF/dt = L(t, x(t)).F from F0 (stated bound), det F;
+      * the first returned F vs single-phase updates (Mineral.update_orientations) of twins of the first and the last listed
+        mineral: under the same parameter set, and in a one-phase configuration (its phase alone, fraction 1);
+      * the consecutive updates vs ONE bulk update of twins over the whole interval;
+      * the call leaves its arguments (params, starting F) alone, and a second call does not hand out the storage of the first.
+    A call that RAISES returns no deformation gradient: nothing for C06 to judge (on the unchanged code that is every list with a
+    phase the assemblage does not name -- eval_rhs returns None, LSODA raises RuntimeError -- and the empty list -- UnboundLocalError;
+    both are `Err` in Model_minerals.lookup_fraction / update_all).  These two classes are EXCLUDED from 'a legal call must not
+    raise'; if such a call does return an F, the F is judged like any other.  A raise for phases the assemblage names is a failure.
+    info (dict) receives: cls, raised, rel_over_bound, vs_single, model_disagreement."""
+    import pydrex
+    import argguard
+    info = info if info is not None else {}
+    b = sc["bulk"]
+    cls = bulk_class(list(b["assemblage"]), list(b["fractions"]), [m[0] for m in b["members"]])
+    info.update(cls=cls, raised=None, rel_over_bound=0.0, vs_single=0.0, model_disagreement=None, changed=False)
+    may_raise = cls.startswith("phase-absent") or cls == "empty-list"
+    fails = []
+    ms, params, get_L, get_x = bulk_build(sc)
+    dt = bulk_interval(sc, get_L, get_x)
+    what = f"update_all over [{', '.join('ol' if m[0] == 0 else 'en' for m in b['members'])}] with {b['label']}"
+    F, t, eps, F_hist = F0.copy(), 0.0, 0.0, [F0.copy()]
+    for k in range(sc["nupd"]):
+        Fin = F.copy()
+        try:
+            Fn, faults = argguard.guarded(pydrex.update_all, (ms, params, F, get_L, (t, t + dt, get_x)), out=(0,))
+        except Exception as e:  # noqa: BLE001
+            info["raised"] = type(e).__name__
+            if not may_raise:
+                fails.append((k, f"{what}: raised {type(e).__name__}: {e}"))
+            break       # no F returned
+        for ft in faults:
+            fails.append((k, f"{what}: {ft}"))
+        if not (isinstance(Fn, np.ndarray) and Fn.shape == (3, 3) and np.all(np.isfinite(Fn))):
+            fails.append((k, f"{what}: returned {type(Fn).__name__} {getattr(Fn, 'shape', '')} instead of a finite 3x3 deformation gradient"))
+            break
+        t1 = t + dt
+        eps += c01.strain_of(get_L, get_x, t, t1)
+        bound = 5e-3 + 1e-3 * ((k + 1) + 2 * eps)
+        Fref = reference_F(get_L, get_x, F0, 0.0, t1)
+        rel = _rel(Fn, Fref)
+        info["rel_over_bound"] = max(info["rel_over_bound"], rel / bound)
+        info["changed"] = info["changed"] or not np.array_equal(Fn, Fin)
+        if rel > bound:
+            stay = " (it is the supplied F, unchanged)" if np.array_equal(Fn, Fin) else ""
+            fails.append((k, f"{what}: returned F differs from the solution of dF/dt = L.F by {rel:.3e} (bound {bound:.3e}){stay}"))
+        d, dref = float(np.linalg.det(Fn)), float(np.linalg.det(F0) * np.exp(trace_int(get_L, get_x, 0.0, t1)))
+        if abs(d - dref) > (bound * 3) * abs(dref):
+            fails.append((k, f"{what}: det F = {d!r}, expected det F0 * exp(int tr L) = {dref!r}"))
+        if k == 0 and b["members"]:
+            # single-phase updates of twins (fresh minerals of the same description) over the same interval from the same F
+            last = len(b["members"]) - 1
+            for j in sorted({0, last}):
+                for one_phase in (False, True):
+                    if not one_phase and b["members"][j][0] not in b["assemblage"]:
+                        continue        # the single-phase update itself raises for a phase the assemblage does not name
+                    tw, p1, gL1, gx1 = bulk_build(sc, single_phase_of=j) if one_phase else bulk_build(sc)
+                    try:
+                        Fs = (tw[0] if one_phase else tw[j]).update_orientations(p1, F0.copy(), gL1, (0.0, dt, gx1))
+                    except Exception as e:  # noqa: BLE001
+                        fails.append((0, f"single-phase update of listed mineral {j} raised {type(e).__name__}: {e}"))
+                        continue
+                    dF = _rel(Fn, Fs)
+                    info["vs_single"] = max(info["vs_single"], dF)
+                    if dF > 2 * bound:
+                        cfg = "in a one-phase configuration" if one_phase else "under the same parameters"
+                        fails.append((0, f"{what}: returned F differs from the single-phase update of listed mineral {j} ({cfg}) by {dF:.3e}"))
+                    if j == last and not one_phase and not np.array_equal(Fn, Fs):
+                        # correspondence with Model_minerals.update_all (the last mineral's F from the common starting F): bit-exact
+                        info["model_disagreement"] = (f"{what}: returned F is not the last listed mineral's single-phase F "
+                                                      f"(max difference {float(np.abs(Fn - Fs).max()):.3e})")
+        F, t = Fn, t1
+        F_hist.append(np.array(Fn, dtype=float))
+    if info["raised"] is None and may_raise and len(F_hist) > 1:
+        info["model_disagreement"] = info["model_disagreement"] or f"{what}: returned an F where the model raises ({cls})"
+    if sc["nupd"] > 1 and len(F_hist) == sc["nupd"] + 1 and not fails:
+        ms1, p1, gL1, gx1 = bulk_build(sc)
+        try:
+            F1 = pydrex.update_all(ms1, p1, F0.copy(), gL1, (0.0, sc["nupd"] * dt, gx1))
+            dF = _rel(F1, F_hist[-1])
+            if dF > 2 * (5e-3 + 1e-3 * (sc["nupd"] + 2 * eps)):
+                fails.append((sc["nupd"] - 1, f"{what}: split interval and whole interval give different F: {dF:.3e}"))
+        except Exception as e:  # noqa: BLE001
+            fails.append((sc["nupd"] - 1, f"{what}: the whole interval as one bulk update raised {type(e).__name__}: {e}"))
+    if info["raised"] is None and not fails:
+        def make_args():
+            a = bulk_build(sc)
+            return (a[0], a[1], F0.copy(), a[2], (0.0, dt, a[3])), {}
+        for ft in argguard.fresh_result_probe(pydrex.update_all, make_args):
+            fails.append((0, f"{what}: {ft}"))
+    return fails, info
+
+
 def run(chk):
     ok, br = proofs.prove(chk, FILES, PROP, groups=("core",), gen_modules=MT.GLUE_TIE_GEN)
     chk.cov["trusted_base"] = common.TRUSTED_COMMON + [MT.GLUE_TIE_TRUSTED,
@@ -114,7 +309,12 @@ def run(chk):
                        "value at the start, midpoint and end of every update but vary in between (whole cosine periods, pulses, shear zones along a straight "
                        "pathline, closed pathlines; one history per family [thorough: 6]); presentations of the arguments (starting F Fortran-ordered / strided / read-only, "
                        "L handed back as a view of a caller's table / read-only / Fortran-ordered, ordinals as enum members or numpy integers: oracle + bit-identity with the "
-                       "plain presentation); non-trivial = F changed")
+                       "plain presentation); bulk updates (pydrex.update_all, 1..2 [thorough 1..3] consecutive calls) over every assemblage on / next to the boundary of the simplex "
+                       "of phase fractions (a fraction exactly 0 / exactly 1, one-phase assemblages, subnormal fractions, interior controls) x every "
+                       "sub-list of minerals (only the zero-fraction phase, only one phase, both orders, a phase twice, a phase the assemblage does "
+                       "not name, the empty list): returned F vs the model (the last mineral's F, bit-exact; raises where the model is Err), vs DOP853, "
+                       "vs single-phase updates of twins (same parameters / one-phase configuration), split vs whole, arguments unchanged, result "
+                       "storage not shared; non-trivial = F changed")
     bad, mon = [], []
     rng = np.random.default_rng(chk.seed)
     import pydrex
@@ -204,15 +404,40 @@ def run(chk):
                     rel = np.abs(Fx - Fref).max() / np.abs(Fref).max()
                     if rel > 5e-3 + 1e-3 * 2:
                         mon.append((sc, 0, f"{nm}: F differs from the solution of dF/dt = L.F by {rel:.3e}", F0))
-        chk.cov["F_error_over_bound_max"] = worst
         chk.cov["traces_validated_against_impl"] = chk.cov["evaluations"]
+        # bulk updates over assemblages on the boundary of the simplex x sub-lists of the assemblage (own PRNG stream): correspondence
+        # with Model_minerals.update_all (the last mineral's F from the common starting F, bit-exact; `Err` where a phase is not
+        # named / the list is empty) and C06's oracle on the same calls
+        rngb = np.random.default_rng([chk.seed, 0xC06F])
+        hb = {k: chk.cov.setdefault(k, {}) for k in ("bulk_boundary_classes", "bulk_boundary_assemblages", "bulk_boundary_lists",
+                                                      "bulk_boundary_raised", "bulk_boundary_fraction_spellings")}
+        for sc in bulk_plan(rngb, chk.tier):
+            F0 = random_F0(rngb)
+            fails, info = bulk_fails(sc, F0)
+            b = sc["bulk"]
+            lst = "[" + ",".join("ol" if m[0] == 0 else "en" for m in b["members"]) + "]"
+            for hk, key in (("bulk_boundary_classes", info["cls"]), ("bulk_boundary_assemblages", b["label"]), ("bulk_boundary_lists", lst),
+                            ("bulk_boundary_fraction_spellings", b["spelling"])) + ((("bulk_boundary_raised", info["raised"]),) if info["raised"] else ()):
+                hb[hk][key] = hb[hk].get(key, 0) + 1
+            chk.note_case(("bulk-boundary", b["label"], lst, sc["seed"]), nontrivial=bool(info["changed"]),
+                          sample=dict(call="pydrex.update_all", assemblage=b["label"], minerals=lst, cls=info["cls"], updates=sc["nupd"],
+                                      flow=sc["lkind"], raised=info["raised"], F_error_over_bound=info["rel_over_bound"])
+                          if info["cls"] == "fraction-0:all-listed" else None)
+            if info["model_disagreement"]:
+                bad.append((sc, info["model_disagreement"]))
+            if info["raised"] is None:
+                worst = max(worst, info["rel_over_bound"])
+                chk.cov["bulk_vs_single_phase_max"] = max(chk.cov.get("bulk_vs_single_phase_max", 0.0), float(info["vs_single"]))
+            mon += [(sc, k, m, F0) for k, m in fails]
+        chk.cov["F_error_over_bound_max"] = worst
     chk.cov["disagreements"] = len(bad)
     chk.cov["monitor_failures"] = len(mon)
     if ok and not bad and not mon:
         return
     if mon:
         sc, k, msg, F0 = mon[0]
-        chk.replay({"kind": "property-violation", "call": "Mineral.update_orientations", "scenario": c01.encode_sc(sc),
+        chk.replay({"kind": "property-violation", "call": "pydrex.update_all" if "bulk" in sc else "Mineral.update_orientations",
+                    "scenario": c01.encode_sc(sc),
                     "F0": [common.hx(x) for x in F0.reshape(-1)], "update_index": k, "observed": msg, "required": "C06",
                     "broken": chk.cov.get("broken_obligations", []), "disagreements": [m for _, m in bad[:3]]})
     else:
@@ -229,8 +454,11 @@ def replay(d):
     sc = d["scenario"]
     sc["pair"] = tuple(sc["pair"])
     F0 = np.array([common.unhx(x) for x in d["F0"]]).reshape(3, 3)
-    with MT.Recorder() as rec:
-        _, fails, _ = presentation_fails(rec, sc, F0)
+    if "bulk" in sc:        # a bulk scenario (pydrex.update_all over a boundary assemblage)
+        fails, _ = bulk_fails(sc, F0)
+    else:
+        with MT.Recorder() as rec:
+            _, fails, _ = presentation_fails(rec, sc, F0)
     for k, m in fails:
         print("still fails:", k, m)
     return 1 if fails else 0
